@@ -643,22 +643,54 @@ Proof.
   intros HC Hn. destruct n as [|n]; [lia|]. rewrite p_block_S.
   rewrite HC by (try reflexivity; lia). cbn [obind]. rewrite expect_hit. reflexivity.
 Qed.
+(* the zero-left production: `if 0 cmp t { .. } else { .. }` *)
+Lemma p_term3_ifz n c r :
+  p_term3 (S n) (TKw KIf :: TZCmp c :: r) =
+  (do (a, r1) <- p_term n r; do (th, r2) <- p_block n r1;
+   match r2 with
+   | TKw KElse :: r3 => do (el, r4) <- p_block n r3; Some (FIfC (flip c) a None th el None, r4)
+   | _ => None end).
+Proof. reflexivity. Qed.
+Lemma flip_flip c : flip (flip c) = c.
+Proof. destruct c; reflexivity. Qed.
+(* `-0` is the literal 0 *)
+Lemma p_term_minus0 n r : p_term n (TSym SMinus :: TNum 0 :: r) = p_term n (TNum 0 :: r).
+Proof. destruct n as [|[|[|[|n]]]]; reflexivity. Qed.
+Lemma thead_starts_zero t : starts_zero t = true -> thead t = TNum 0.
+Proof.
+  induction t; cbn [starts_zero thead]; try discriminate; auto.
+  destruct n; try discriminate. reflexivity.
+Qed.
 Lemma C3_if s a b th el :
   wf a = true -> C4 a -> match b with Some b' => C4 b' | None => True end -> C4 th -> C4 el ->
   C3 (FIfC s a b th el None).
 Proof.
   intros Hwa Ha Hb Hth Hel n rest Hn _ Hs. destruct n as [|n]; [lia|]. rewrite tsz_if in Hn.
   cbn [Tk_term].
-  match goal with |- p_term3 _ (TKw KIf :: Tk_term a ?k) = _ => destruct (Tk_thead a k) as [tl E]; rewrite E end.
-  rewrite p_term3_if by (now apply thead4). rewrite <- E. clear E tl.
   destruct b as [b|].
-  - rewrite Ha by (try reflexivity; lia). cbn [obind if_tail].
-    rewrite Hb by (try reflexivity; lia). cbn [obind].
-    rewrite block_ok by (auto; lia). cbn [obind].
-    rewrite block_ok by (auto; lia). reflexivity.
-  - rewrite Ha by (try reflexivity; lia). cbn [obind if_tail].
-    rewrite block_ok by (auto; lia). cbn [obind].
-    rewrite block_ok by (auto; lia). reflexivity.
+  - match goal with |- p_term3 _ (TKw KIf :: Tk_term a ?k) = _ => destruct (Tk_thead a k) as [tl E]; rewrite E end.
+    rewrite p_term3_if by (now apply thead4). rewrite <- E. clear E tl.
+    rewrite Ha by (try reflexivity; lia). cbn [obind if_tail].
+    destruct (starts_zero b) eqn:Zb.
+    + (* the second operand is printed with a minus sign in front of its leading 0 *)
+      match goal with |- context [p_term n (TSym SMinus :: Tk_term b ?k)] =>
+        destruct (Tk_thead b k) as [tl E]; rewrite (thead_starts_zero b Zb) in E; rewrite E, p_term_minus0, <- E end.
+      rewrite Hb by (try reflexivity; lia). cbn [obind].
+      rewrite block_ok by (auto; lia). cbn [obind].
+      rewrite block_ok by (auto; lia). reflexivity.
+    + rewrite Hb by (try reflexivity; lia). cbn [obind].
+      rewrite block_ok by (auto; lia). cbn [obind].
+      rewrite block_ok by (auto; lia). reflexivity.
+  - destruct (ends_zero a) eqn:Za.
+    + (* zero on the left: the production stores the mirrored sort *)
+      rewrite p_term3_ifz. rewrite Ha by (try reflexivity; lia). cbn [obind].
+      rewrite block_ok by (auto; lia). cbn [obind].
+      rewrite block_ok by (auto; lia). now rewrite flip_flip.
+    + match goal with |- p_term3 _ (TKw KIf :: Tk_term a ?k) = _ => destruct (Tk_thead a k) as [tl E]; rewrite E end.
+      rewrite p_term3_if by (now apply thead4). rewrite <- E. clear E tl.
+      rewrite Ha by (try reflexivity; lia). cbn [obind if_tail].
+      rewrite block_ok by (auto; lia). cbn [obind].
+      rewrite block_ok by (auto; lia). reflexivity.
 Qed.
 Lemma C3_label l t : C4 t -> C3 (FLabel l t None).
 Proof.
@@ -974,12 +1006,17 @@ Proof.
   - rewrite tsz_if in *.
     pose proof (IH el ltac:(lia) (TSym SRBrace :: k)) as H4.
     pose proof (IH th ltac:(lia) (TSym SRBrace :: TKw KElse :: TSym SLBrace :: Tk_term el (TSym SRBrace :: k))) as H3.
+    set (br := TSym SLBrace :: Tk_term th (TSym SRBrace :: TKw KElse :: TSym SLBrace :: Tk_term el (TSym SRBrace :: k))).
+    assert (Hbr : S (S (S (tsz th + tsz el + List.length k))) <= List.length br) by (subst br; cbn [List.length] in *; lia).
+    cbn [Tk_term]. fold br.
     destruct b as [b|].
-    + pose proof (IH b ltac:(lia) (TSym SLBrace :: Tk_term th (TSym SRBrace :: TKw KElse :: TSym SLBrace :: Tk_term el (TSym SRBrace :: k)))) as H2.
-      pose proof (IH a ltac:(lia) (TSym (SCmp s) :: Tk_term b (TSym SLBrace :: Tk_term th (TSym SRBrace :: TKw KElse :: TSym SLBrace :: Tk_term el (TSym SRBrace :: k))))) as H1.
-      cbn [Tk_term List.length] in *. lia.
-    + pose proof (IH a ltac:(lia) (TCmpZ s :: TSym SLBrace :: Tk_term th (TSym SRBrace :: TKw KElse :: TSym SLBrace :: Tk_term el (TSym SRBrace :: k)))) as H1.
-      cbn [Tk_term List.length] in *. lia.
+    + pose proof (IH b ltac:(lia) br) as H2.
+      destruct (starts_zero b).
+      * pose proof (IH a ltac:(lia) (TSym (SCmp s) :: TSym SMinus :: Tk_term b br)) as H1. cbn [List.length] in *. lia.
+      * pose proof (IH a ltac:(lia) (TSym (SCmp s) :: Tk_term b br)) as H1. cbn [List.length] in *. lia.
+    + destruct (ends_zero a).
+      * pose proof (IH a ltac:(lia) br) as H1. cbn [List.length] in *. lia.
+      * pose proof (IH a ltac:(lia) (TCmpZ s :: br)) as H1. cbn [List.length] in *. lia.
   - rewrite tsz_print in *.
     pose proof (IH next ltac:(lia) k) as H2.
     pose proof (IH a ltac:(lia) (TSym SRPar :: TSym SSemi :: Tk_term next k)) as H1.
